@@ -121,6 +121,7 @@ def run(prog, rep, tier, cfg):
     # ---- error discipline: no Result produced in these crates is silently discarded
     X.no_dropped_results('K14', 'results-not-discarded', ['fil_actor_miner'], 'no Result of a call is discarded')
     X.tolerated_failures('K15', 'tolerated-failures', ['fil_actor_miner'], 'tolerated failures are the reviewed ones')
+    X.write_sites_preserved('K16', 'updates-present', 'fil_actor_miner', ['MinerInfo.owner', 'MinerInfo.pending_owner_address', 'MinerInfo.worker', 'MinerInfo.pending_worker_key', 'MinerInfo.control_addresses', 'MinerInfo.beneficiary', 'MinerInfo.beneficiary_term', 'MinerInfo.pending_beneficiary_term', 'State.info'], 'state updates do not disappear')
 
 
 
